@@ -3,6 +3,21 @@ TRUST = ("trusted: CPython ast; the checker's own engines; for table rules the i
          "against the real loaders at development time). Known findings are listed in KNOWN_FINDINGS.txt. ")
 
 META = {
+    "C04": {
+        "engine": "sa: table model x guard engine, call graph, effect classification",
+        "technique": "exhaustive torsion move-set table (selection procedure read from the code, evaluated on every patched "
+                     "topology) vs the graph-theoretic far side of the rotated bond; who-may-write-coordinates table with "
+                     "per-writer def-use verification; guard analysis of mover call sites",
+        "text": "for all 210 (residue, chain position, dihedral) instances the atoms the code would rotate - rank function "
+                "from set_reference_distance, selection from get_moveable_names (flat filter or bond walk), pivot from "
+                "set_dihedral_angle - equal the far side of the rotated bond, no central bond lies in a ring and the pivot "
+                "stays; every function storing x/y/z is a constructor, a placement of an atom created in the same call tree, "
+                "or one of the two rigid movers whose stored values are qchichange outputs plus origin; every call in "
+                "non_trivial that can reach the heavy-atom mover is gated by not-assign-only and debump/opt; --clean never "
+                "enters the pipeline; the water-only initialiser cannot reach the mover. Which residues rotate for a given "
+                "packing is not decided; rigidity of the rotation itself is C15.",
+        "note": TRUST,
+    },
     "C12": {
         "engine": "sa: call graph, raise-set analysis, effect analysis of file opens, table model",
         "technique": "inter-procedural raise-set analysis of every handler in reachable code; who-may-open-for-writing "
